@@ -2,8 +2,15 @@
    Grandpa.RoundSpec.round_state_of and compares, after EVERY import, the round state of the Go
    Round with the paper definitions evaluated on the votes imported so far.
    prop_ok  : on every prefix whose two vote sets are tolerant (the domain of the paper
-              definitions), ghost / finalized / estimate / completable / precommit-ghost agree.
-   model_eq : additionally the import flags and the participation counters agree (on all prefixes). *)
+              definitions), ghost / finalized / estimate / completable / precommit-ghost agree;
+              with tolerant prevotes the prevote ghost and the finalized block agree whatever the
+              precommits, with tolerant precommits the precommit ghost agrees.
+   model_eq : additionally, on ALL prefixes: the import flags and the participation counters
+              agree; finalized / estimate equal C20.Model.state_at (Round.update with its wrapping
+              uint64 accounting, possible_go) applied to the prevote ghost in use, and the round is
+              completable whenever state_at says so;
+              a ghost of an intolerant set (not defined by the paper) is defined exactly when the
+              threshold is reached and has a supermajority. *)
 open Model
 open Vutil
 
@@ -37,25 +44,71 @@ let check inp obs =
         let flags = if ph = 'p' then import_flags ws !hv x else import_flags ws !hc x in
         if ph = 'p' then (v := x :: !v; hv := !hv @ [x]) else (c := x :: !c; hc := !hc @ [x]);
         let rs = round_state_of t ws !v !c in
-        let dom = in_domain ws !v !c in
+        let tol_v = tolerant ws !v and tol_c = tolerant ws !c in
+        let dom = tol_v && tol_c in
         let st = Printf.sprintf "%s:%s:%s:%s:%s" (blk_str rs.rs_ghost) (blk_str rs.rs_finalized)
             (blk_str rs.rs_estimate) (if rs.rs_completable then "1" else "0") (blk_str rs.rs_pc_ghost) in
         let part = Printf.sprintf "%s.%x:%s.%x" (hex_of_n (cur_weight ws !v)) (int_of_nat (participants ws !v))
             (hex_of_n (cur_weight ws !c)) (int_of_nat (participants ws !c)) in
+        let parse_blk s = if s = "-" then Some None else
+            (try Some (Some (nat_of_int (int_of_string ("0x" ^ s)))) with _ -> None) in
+        let fail_prop m = prop := false; if !detail = "" then detail := Printf.sprintf "after op %d (%s): %s" i op m in
+        let fail_eq m = eq := false; if !detail = "" then detail := Printf.sprintf "after op %d (%s): %s" i op m in
+        (* a ghost the paper does not define (intolerant set): it must at least be defined exactly
+           when the votes seen reach the threshold and have a supermajority *)
+        let relaxed_ghost what set go =
+          let defined = N.leb (threshold ws) (cur_weight ws set) in
+          (match go with
+           | None -> if defined then fail_eq (what ^ " ghost missing although the threshold is reached")
+           | Some g ->
+             if not defined then fail_eq (what ^ " ghost below the threshold")
+             else if not (has_supermajority t ws set g) then fail_eq (what ^ " ghost without a supermajority")
+             else if List.exists (has_supermajority t ws set) (children t g) then
+               (* not demanded: with equivocators above the tolerance every block has a
+                  supermajority, also blocks the vote graph has no node for *)
+               tag "intolerant-ghost-not-maximal") in
         (match String.split_on_char ':' ob with
          | [fl; g; f; e; cp; pg; p1; p2] ->
            let ost = String.concat ":" [g; f; e; cp; pg] in
            let opart = p1 ^ ":" ^ p2 in
            if dom then begin
-             if ost <> st then begin
-               prop := false;
-               if !detail = "" then detail := Printf.sprintf "after op %d (%s): go=%s spec=%s" i op ost st
-             end
-           end else tag "intolerant-prefix";
-           if fl <> hex_of_n flags || opart <> part then begin
-             eq := false;
-             if !detail = "" then detail := Printf.sprintf "after op %d (%s): flags/participation go=%s,%s model=%s,%s" i op fl opart (hex_of_n flags) part
+             if ost <> st then fail_prop (Printf.sprintf "go=%s spec=%s" ost st)
+           end else begin
+             tag "intolerant-prefix";
+             (match parse_blk g, parse_blk f, parse_blk e, parse_blk pg with
+              | Some gg, Some gf, Some ge, Some gpg when cp = "0" || cp = "1" ->
+                (* the ghost Round.update works from *)
+                let base_ghost =
+                  if tol_v then begin
+                    tag "pc-intolerant";
+                    (* prevote ghost and finalized block are the paper's whatever the precommits *)
+                    if g <> blk_str rs.rs_ghost then fail_prop (Printf.sprintf "prevote ghost go=%s spec=%s" g (blk_str rs.rs_ghost));
+                    if f <> blk_str rs.rs_finalized then fail_prop (Printf.sprintf "finalized go=%s spec=%s" f (blk_str rs.rs_finalized));
+                    rs.rs_ghost
+                  end else begin
+                    tag "pv-intolerant";
+                    relaxed_ghost "prevote" !v gg; gg
+                  end in
+                (* finalized / estimate / completable: Round.update with its wrapping accounting *)
+                let ((mf, me), mc) = state_at t ws (possible_go t ws) base_ghost !c in
+                (* completable is compared in one direction only: outside the domain the vote graph
+                   has no node for the second vote of an equivocator, so Go can see fewer possible
+                   children of the ghost than the block tree has (never more) *)
+                let mst = Printf.sprintf "%s:%s" (blk_str mf) (blk_str me) in
+                let gst = String.concat ":" [f; e] in
+                if gst <> mst then fail_eq (Printf.sprintf "finalized:estimate go=%s update-model=%s (from ghost %s)" gst mst (blk_str base_ghost))
+                else if mc && cp <> "1" then fail_eq (Printf.sprintf "not completable although no child of the ghost %s is possible" (blk_str base_ghost))
+                else if (not mc) && cp = "1" then tag "completable-by-graph-only";
+                ignore gf; ignore ge;
+                let ((sf, se), sc) = state_at t ws (possible t ws) base_ghost !c in
+                if (sf, se, sc) <> (mf, me, mc) then tag "wrap-differs";
+                if tol_c then begin
+                  if pg <> blk_str rs.rs_pc_ghost then fail_prop (Printf.sprintf "precommit ghost go=%s spec=%s" pg (blk_str rs.rs_pc_ghost))
+                end else relaxed_ghost "precommit" !c gpg
+              | _ -> fail_prop ("malformed observation " ^ ob))
            end;
+           if fl <> hex_of_n flags || opart <> part then
+             fail_eq (Printf.sprintf "flags/participation go=%s,%s model=%s,%s" fl opart (hex_of_n flags) part);
            if dom then begin
              (match rs.rs_ghost with Some _ -> tag "ghost" | None -> tag "no-ghost");
              (match rs.rs_finalized with Some _ -> (tag "finalized"; nontriv := true) | None -> ());
@@ -67,6 +120,7 @@ let check inp obs =
              (match rs.rs_pc_ghost with Some _ -> tag "pc-ghost" | None -> ());
              if eq_weight ws !v <> N0 then tag "pv-equivocation";
              if eq_weight ws !c <> N0 then tag "pc-equivocation";
+             if List.length ws > 32 then tag "multiword-bitfield";
              (match rs.rs_ghost with Some g -> if g <> O then nontriv := true | None -> ())
            end;
            (match hex_of_n flags with
@@ -79,4 +133,38 @@ let check inp obs =
     end
   | _ -> fail "C20: bad input %s" inp
 
-let () = run_driver check
+(* vm_compute cross-check of the extraction: the round state after the LAST import recomputed
+   inside Coq (specification and update-model) and compared with the Go observables; rendered when
+   both vote sets are tolerant at the end *)
+let coq inp obs =
+  match split_ws inp with
+  | ["r"; ps; _; wss; ops] when ops <> "-" ->
+    let t = List.map (fun x -> nat_of_int (int_of_string ("0x" ^ x))) (list_of ps) in
+    let ws = List.map n_of_hex (list_of wss) in
+    let parse op = (match String.split_on_char '.' (String.sub op 1 (String.length op - 1)) with
+      | [a; b; s] -> (op.[0], int_of_string ("0x" ^ a), int_of_string ("0x" ^ b), int_of_string ("0x" ^ s))
+      | _ -> fail "bad op %s" op) in
+    let l = List.map parse (list_of ops) in
+    let mk (_, a, b, sg) = { vvoter = nat_of_int a; vblock = nat_of_int b; vsig = nat_of_int sg } in
+    let v = List.map mk (List.filter (fun (ph, _, _, _) -> ph = 'p') l)
+    and c = List.map mk (List.filter (fun (ph, _, _, _) -> ph = 'c') l) in
+    if not (tolerant ws v && tolerant ws c) then None else begin
+      let last = List.nth (list_of obs) (List.length l - 1) in
+      match String.split_on_char ':' last with
+      | [_; g; f; e; cp; pg; _; _] when cp = "0" || cp = "1" ->
+        let ob s = if s = "-" then "None" else Printf.sprintf "(Some %d%%nat)" (int_of_string ("0x" ^ s)) in
+        (try
+          let votes l = "[" ^ String.concat "; " (List.map (fun (_, a, b, sg) -> Printf.sprintf "mkVote %d %d %d" a b sg) l) ^ "]" in
+          let vs = votes (List.filter (fun (ph, _, _, _) -> ph = 'p') l)
+          and cs = votes (List.filter (fun (ph, _, _, _) -> ph = 'c') l) in
+          let tr = "[" ^ String.concat "; " (List.map (fun x -> string_of_int (int_of_nat x)) t) ^ "]%nat" in
+          let wl = "[" ^ String.concat "; " (List.map coq_n ws) ^ "]" in
+          let o = Printf.sprintf "(mkRS %s %s %s %s %s)" (ob g) (ob f) (ob e) (if cp = "1" then "true" else "false") (ob pg) in
+          Some (Printf.sprintf "let t := %s in let ws := %s in let V := %s in let C := %s in rs_eqb (round_state_of t ws V C) %s && rs_eqb (round_state_go t ws V C) %s"
+                  tr wl vs cs o o)
+        with _ -> None)
+      | _ -> None
+    end
+  | _ -> None
+
+let () = run_driver ~coq check
